@@ -144,6 +144,9 @@ func filterCloneOf(v ssa.Value, accept func(arg ssa.Value) bool) bool {
 }
 
 func isFieldLoad(v ssa.Value, field string) bool {
+	if v == nil || len(an.ValuesAt(v)) == 0 {
+		return false
+	}
 	for _, s := range an.ValuesAt(v) {
 		if _, _, f, ok := an.FieldOf(s); !ok || f != field {
 			return false
@@ -303,86 +306,7 @@ func r062(c *an.Ctx) {
 		})
 		c.Check(ok && n > 0, rule, "(*pkg/resource.Collection).List|every element is FilterClone(body) with the request's filter", fn.Pos(), "", "List returns stored bodies that did not pass through the request's response filter")
 	}
-	// change.filter helpers
-	if fn := mustFunc(c, rule, resPkg, "ValueChange", "filter"); fn != nil {
-		okClone := false
-		for _, call := range an.CallsTo(fn, filterCloneQ) {
-			if call.Common().Args[0] == ssa.Value(fn.Params[1]) && isFieldLoad(call.Common().Args[1], "Value") {
-				okClone = true
-			}
-		}
-		okRet := true
-		for _, r := range an.Returns(fn) {
-			for _, v := range an.ValuesAt(r.Results[0]) {
-				if v == ssa.Value(fn.Params[0]) {
-					// returning the change itself is only allowed when the projection is the identity:
-					// guarded by newValue == v.Value
-					eq := false
-					for _, e := range an.GuardingEdges(r) {
-						if bo, isBO := e.If.Cond.(*ssa.BinOp); isBO && e.Branch {
-							_ = bo
-							eq = true
-						}
-					}
-					if !eq {
-						okRet = false
-					}
-					continue
-				}
-				fields, _ := litFields(v)
-				if fields == nil || !filterCloneOf(fields["Value"], func(a ssa.Value) bool { return isFieldLoad(a, "Value") }) {
-					okRet = false
-				}
-				for _, f := range []string{"ChangeTime", "SeedValue", "LastSeedValue"} {
-					if !isFieldLoad(fields[f], f) {
-						okRet = false
-					}
-				}
-			}
-		}
-		c.Check(okClone && okRet, rule, "(*pkg/resource.ValueChange).filter|projects Value, keeps time and seed flags", fn.Pos(), "", "ValueChange.filter does not return the change with Value = filter.FilterClone(Value) and the other fields unchanged")
-	}
-	if fn := mustFunc(c, rule, resPkg, "CollectionChange", "filter"); fn != nil {
-		okRet := true
-		n := 0
-		for _, r := range an.Returns(fn) {
-			for _, v := range an.ValuesAt(r.Results[0]) {
-				if v == ssa.Value(fn.Params[0]) {
-					continue
-				}
-				n++
-				fields, _ := litFields(v)
-				if fields == nil || !filterCloneOf(fields["NewValue"], func(a ssa.Value) bool { return isFieldLoad(a, "NewValue") }) ||
-					!filterCloneOf(fields["OldValue"], func(a ssa.Value) bool { return isFieldLoad(a, "OldValue") }) {
-					okRet = false
-					continue
-				}
-				for _, f := range []string{"Id", "ChangeType", "ChangeTime", "SeedValue", "LastSeedValue"} {
-					if !isFieldLoad(fields[f], f) {
-						okRet = false
-					}
-				}
-			}
-		}
-		// identity return only when both projections are identities
-		for _, r := range an.Returns(fn) {
-			for _, v := range an.ValuesAt(r.Results[0]) {
-				if v == ssa.Value(fn.Params[0]) {
-					nEq := 0
-					for _, e := range an.GuardingEdges(r) {
-						if bo, isBO := e.If.Cond.(*ssa.BinOp); isBO && e.Branch {
-							_ = bo
-							nEq++
-						}
-					}
-					if nEq < 2 {
-						okRet = false
-					}
-				}
-			}
-		}
-		c.Check(okRet && n > 0, rule, "(*pkg/resource.CollectionChange).filter|projects OldValue and NewValue, keeps the rest", fn.Pos(), "", "CollectionChange.filter does not project both values with the filter or drops Id/kind/time/seed flags")
-	}
+	r062filters(c, rule)
 	// Pull loops: every event sent derives from change.filter(filter) with the request's filter
 	for _, t := range [][2]string{{"Value", "Pull"}, {"Collection", "Pull"}} {
 		fn := mustFunc(c, rule, resPkg, t[0], t[1])
@@ -474,4 +398,88 @@ func r064(c *an.Ctx) {
 	}
 	c.Check(okRej && nRej > 0, rule, name+"|invalid mask is InvalidArgument", fn.Pos(), "", "a read mask with unknown paths is not reported as codes.InvalidArgument")
 	c.Check(okPass, rule, name+"|nil or valid mask passes", fn.Pos(), "", "a nil or valid read mask is rejected")
+}
+
+// r062filters: the filter helpers of change events project the values and keep every other field.
+func r062filters(c *an.Ctx, rule string) {
+	// change.filter helpers
+	if fn := mustFunc(c, rule, resPkg, "ValueChange", "filter"); fn != nil {
+		okClone := false
+		for _, call := range an.CallsTo(fn, filterCloneQ) {
+			if call.Common().Args[0] == ssa.Value(fn.Params[1]) && isFieldLoad(call.Common().Args[1], "Value") {
+				okClone = true
+			}
+		}
+		okRet := true
+		for _, r := range an.Returns(fn) {
+			for _, v := range an.ValuesAt(r.Results[0]) {
+				if v == ssa.Value(fn.Params[0]) {
+					// returning the change itself is only allowed when the projection is the identity:
+					// guarded by newValue == v.Value
+					eq := false
+					for _, e := range an.GuardingEdges(r) {
+						if bo, isBO := e.If.Cond.(*ssa.BinOp); isBO && e.Branch {
+							_ = bo
+							eq = true
+						}
+					}
+					if !eq {
+						okRet = false
+					}
+					continue
+				}
+				fields, _ := litFields(v)
+				if fields == nil || !filterCloneOf(fields["Value"], func(a ssa.Value) bool { return isFieldLoad(a, "Value") }) {
+					okRet = false
+				}
+				for _, f := range []string{"ChangeTime", "SeedValue", "LastSeedValue"} {
+					if !isFieldLoad(fields[f], f) {
+						okRet = false
+					}
+				}
+			}
+		}
+		c.Check(okClone && okRet, rule, "(*pkg/resource.ValueChange).filter|projects Value, keeps time and seed flags", fn.Pos(), "", "ValueChange.filter does not return the change with Value = filter.FilterClone(Value) and the other fields unchanged")
+	}
+	if fn := mustFunc(c, rule, resPkg, "CollectionChange", "filter"); fn != nil {
+		okRet := true
+		n := 0
+		for _, r := range an.Returns(fn) {
+			for _, v := range an.ValuesAt(r.Results[0]) {
+				if v == ssa.Value(fn.Params[0]) {
+					continue
+				}
+				n++
+				fields, _ := litFields(v)
+				if fields == nil || !filterCloneOf(fields["NewValue"], func(a ssa.Value) bool { return isFieldLoad(a, "NewValue") }) ||
+					!filterCloneOf(fields["OldValue"], func(a ssa.Value) bool { return isFieldLoad(a, "OldValue") }) {
+					okRet = false
+					continue
+				}
+				for _, f := range []string{"Id", "ChangeType", "ChangeTime", "SeedValue", "LastSeedValue"} {
+					if !isFieldLoad(fields[f], f) {
+						okRet = false
+					}
+				}
+			}
+		}
+		// identity return only when both projections are identities
+		for _, r := range an.Returns(fn) {
+			for _, v := range an.ValuesAt(r.Results[0]) {
+				if v == ssa.Value(fn.Params[0]) {
+					nEq := 0
+					for _, e := range an.GuardingEdges(r) {
+						if bo, isBO := e.If.Cond.(*ssa.BinOp); isBO && e.Branch {
+							_ = bo
+							nEq++
+						}
+					}
+					if nEq < 2 {
+						okRet = false
+					}
+				}
+			}
+		}
+		c.Check(okRet && n > 0, rule, "(*pkg/resource.CollectionChange).filter|projects OldValue and NewValue, keeps the rest", fn.Pos(), "", "CollectionChange.filter does not project both values with the filter or drops Id/kind/time/seed flags")
+	}
 }
